@@ -1,0 +1,58 @@
+//go:build verif
+
+// Package verifhook holds the instrumentation points used by the model-checking
+// harness that lives outside this repository (build tag "verif"). With the tag
+// off every function here is an empty, inlinable stub (see off.go).
+package verifhook
+
+// Kind of a hooked operation.
+type Kind int
+
+const (
+	Read Kind = iota
+	Write
+	AtomicRW
+	Acquire
+	Release
+)
+
+// Handler, when set, is called at every access / synchronisation point.
+// It is installed by the harness before any goroutine under test is started.
+var Handler func(k Kind, obj interface{}, site string)
+
+// StepHandler, when set, is called at every unit-of-work point.
+var StepHandler func(site string)
+
+func Touch(obj interface{}, write bool, site string) {
+	if h := Handler; h != nil {
+		if write {
+			h(Write, obj, site)
+		} else {
+			h(Read, obj, site)
+		}
+	}
+}
+
+func Atomic(obj interface{}, site string) {
+	if h := Handler; h != nil {
+		h(AtomicRW, obj, site)
+	}
+}
+
+func Lock(mu interface{}, site string) {
+	if h := Handler; h != nil {
+		h(Acquire, mu, site)
+	}
+}
+
+func Unlock(mu interface{}, site string) {
+	if h := Handler; h != nil {
+		h(Release, mu, site)
+	}
+}
+
+func Step(site string) {
+	if h := StepHandler; h != nil {
+		h(site)
+	}
+}
